@@ -68,11 +68,12 @@ def build_tree(rng, alphabet, p_empty=0.15, maxdepth=3, wide=False):
             toplabel = rng.choice(['top', 'top', rlabel(rng, alphabet), rng.choice(['graph', 'Node', 'strict', 'subgraph',
                                                                                     'edge', 'digraph', '0', 'a b'])])
             s = P(*members) if rng.random() < 0.3 else S("TOP", 0, *members, label=toplabel)
+            s.verbose = rng.random() < 0.2
         else:
             nm = "S%d" % next(counter)
             lbl = rlabel(rng, alphabet) if rng.random() < 0.85 else nm
             s = S(nm, rng.randrange(64), *members, label=lbl, critical=rng.random() < 0.5,
-                  forever=rng.random() < 0.25)
+                  forever=rng.random() < 0.25, verbose=rng.random() < 0.2)
             info['nested'].append(s)
             info['label'][s] = lbl
             if not members:
@@ -514,4 +515,58 @@ def c20_tree(prop, key, index, tier):
     return finish(prop, out, key, index, tier, 'c20_tree', (key,), sample)
 
 
+def c20_large(prop, key, index, tier):
+    """a nested scheduler holding a path-rich DAG of 40-150 jobs, required by a
+    sibling and requiring another (so that its entry and exit are looked up),
+    exported under a budget of logical steps far above what the export needs:
+    DOT that never comes describes nothing"""
+    from .synccases import large_dag, line_budget, BudgetExceeded
+    out = Out(prop)
+    rng = random.Random(key)
+    kind, base = large_dag(rng)
+    info = dict(atoms=[], nested=[], parent={}, label={}, empties=[])
+    inner = {}
+    for i in base:
+        inner[i] = N("n%d" % i, rng.randrange(256), critical=rng.random() < 0.5, forever=False)
+    for a, bs in base.items():
+        for b in bs:
+            inner[a].requires(inner[b])
+    nest = S("NEST", 1, *inner.values(), label="NEST")
+    first, last = N("first", 2), N("last", 3, required=nest)
+    nest.requires(first)
+    top = S("TOP", 0, first, nest, last, label="top") if rng.random() < 0.7 else P(first, nest, last)
+    for j in list(inner.values()) + [first, last]:
+        info['atoms'].append(j)
+        info['label'][j] = j.name
+    for j in inner.values():
+        info['parent'][j] = nest
+    for j in (first, nest, last):
+        info['parent'][j] = top
+    info['nested'].append(nest)
+    info['label'][nest] = "NEST"
+    info['top'] = top
+    out.count('large nested DAGs exported (%s)' % kind)
+    text = None
+    try:
+        with line_budget(30_000_000) as spent:
+            text = top.dot_format()
+        out.count('exports done under a budget of logical steps')
+        out.count('  ... library lines executed', spent[0])
+    except BudgetExceeded as exc:
+        out.violation('dot-no-answer', "dot_format() of a tree with a nested %s DAG of %d jobs gave no answer: %s"
+                      % (kind, len(base), exc))
+    except BaseException as exc:                        # noqa
+        out.violation('dot-raised', "dot_format() raised %r" % (exc,))
+    if text is not None:
+        check_dot(out, top, info, text)
+    try:
+        with line_budget(30_000_000):
+            check_list(out, top, info)
+    except BudgetExceeded as exc:
+        out.violation('list-no-answer', "list() gave no answer: %s" % exc)
+    out.nontrivial = True
+    return finish(prop, out, key, index, tier, 'c20_large', (key,), dict(kind=kind, jobs=len(base)))
+
+
 CASES['c20_tree'] = c20_tree
+CASES['c20_large'] = c20_large
